@@ -194,9 +194,9 @@ func init() {
 		Assume: []string{"model.Decode states the merge rules of the statement; pointer identity and backing-array identity are not part of the property and are not compared"},
 		Plan: func(tier string) []core.Lane {
 			if tier == "thorough" {
-				return []core.Lane{{Lane: "plain", Cases: 40000, Shards: 16, TimeoutS: 3600}, {Lane: "race", Cases: 1500, Shards: 16, TimeoutS: 3600}, {Lane: "asan", Cases: 3000, Shards: 16, TimeoutS: 3600}}
+				return []core.Lane{{Lane: "plain", Cases: 120000, Shards: 16, TimeoutS: 7200}, {Lane: "race", Cases: 4000, Shards: 16, TimeoutS: 7200}, {Lane: "asan", Cases: 8000, Shards: 16, TimeoutS: 3600}}
 			}
-			return []core.Lane{{Lane: "plain", Cases: 1600, Shards: 16, TimeoutS: 1200}, {Lane: "race", Cases: 48, Shards: 16, TimeoutS: 1200}}
+			return []core.Lane{{Lane: "plain", Cases: 4000, Shards: 16, TimeoutS: 1200}, {Lane: "race", Cases: 96, Shards: 16, TimeoutS: 1200}}
 		},
 		Case: c10Case,
 	})
